@@ -39,7 +39,7 @@ def main():
             md = os.path.join(out, n + ".md")
             if os.path.exists(md):
                 shutil.copy(md, os.path.join(dest, "notes.md"))
-        sh(["git", "-C", SR, "checkout", "--", "."])
+        (sh(["git", "-C", SR, "checkout", "--", "."]), sh(["git", "-C", SR, "clean", "-fdq", "src", "tests"]))
         rc, o = sh(["git", "-C", SR, "apply", os.path.join(dest, "patch.diff")])
         res = {"name": n, "applies": rc == 0, "checks": {}}
         if rc == 0:
@@ -51,7 +51,7 @@ def main():
                 res["checks"][prop] = {"exit": rc, "silent": rc == 0, "lines": [l[:400] for l in o.splitlines() if l.startswith(("violated oracle", "VIOLATION", "HARNESS-ERROR"))][:4], "wall_s": round(time.time() - t0, 1)}
                 print(n, prop, rc, res["checks"][prop]["lines"][:1], flush=True)
         json.dump(res, open(os.path.join(dest, "result.json"), "w"), indent=1)
-    sh(["git", "-C", SR, "checkout", "--", "."])
+    (sh(["git", "-C", SR, "checkout", "--", "."]), sh(["git", "-C", SR, "clean", "-fdq", "src", "tests"]))
 
 
 if __name__ == "__main__":
